@@ -153,3 +153,4 @@ pub fn synth(rng: &mut Rng) -> (String, Vec<u8>, Vec<u16>) {
     q.dedup();
     (format!("aat-lookup:f{}:v{}:{}", format, size, shape), v, q)
 }
+
